@@ -18,6 +18,15 @@ def gen_unit(rng):
     for r in recs:
         if rng.random() < 0.3:
             r["subs"] = [{"g": rng.choice(records.GROUP_UNIVERSE[:6]), "n": i} for i in range(rng.choice((0, 1, 2, 3)))]
+    if rng.random() < 0.15:
+        # two different rows whose members read the same when nesting is ignored (an empty object followed by a sibling / the
+        # sibling moved inside): stages that remember rows must keep them apart
+        base = {"g": rng.choice(records.GROUP_UNIVERSE[:4]), "k": rng.choice(("a", "b")), "v": rng.choice((0, 1, "x"))}
+        pair = [dict(base, a={}, b=1), dict(base, a={"b": 1})]
+        if rng.random() < 0.5:
+            pair.reverse()
+        for x in pair:
+            recs.insert(rng.randint(0, len(recs)), x)
     args = []
     up = []
     r = rng.random()
@@ -80,8 +89,14 @@ def run_unit(ctx, unit):
     else:
         base = core.Case(unit["args"], unit["input"])
         gcase = core.Case(gargs, unit["input"])
-    o0, o1 = ctx.drv.run_many([base, gcase])
-    for c, o in ((base, o0), (gcase, o1)):
+    extra = []
+    if "unique" in unit["upstream"] and not {"take", "skip", "sort"} & set(unit["upstream"]):
+        # the rows that survive --unique are the first occurrences among the rows of the same pipeline without it
+        nargs = [a for a in unit["args"] if a != "--unique"]
+        extra = [core.Case(fargs + nargs, b"", files=files) if unit.get("pieces") else core.Case(nargs, unit["input"])]
+    obs = ctx.drv.run_many([base, gcase] + extra)
+    o0, o1 = obs[0], obs[1]
+    for c, o in zip([base, gcase] + extra, obs):
         if o.result != "ok":
             if o.result in ("timeout", "abort"):
                 st.inconc("watchdog")
@@ -90,6 +105,19 @@ def run_unit(ctx, unit):
             return
     st.count("conclusive")
     R = [jm.plain(r) for r in jm.read_rows(o0.stdout)]
+    if extra:
+        seen, firsts = set(), []
+        for r in jm.read_rows(obs[2].stdout):
+            t = jm.dumps(jm.plain(r))
+            if t not in seen:
+                seen.add(t)
+                firsts.append(jm.plain(r))
+        st.count("unique_survivors_checked")
+        # (not behind a sort: its keys are read from the input value, not from the printed row, and rows without a key are dropped)
+        if firsts != R:
+            st.violation("survivors-of-unique", "the rows behind --unique are not the first occurrences of the rows without it (%d vs %d rows)" % (len(R), len(firsts)),
+                         unit, {"args": unit["args"], "rows": R[:8], "first_occurrences": firsts[:8]})
+            return
     if unit["mode"] == "merge":
         want = R
     else:
